@@ -37,6 +37,7 @@ def flat(v):
     if t == 'm': return [10, len(v[1])] + [x for k, e in v[1] for x in flat(k) + flat(e)]
     if t == 'p': return [11, len(v[1])] + list(v[1])
     if t == 'x': return [12, len(v[1])] + list(v[1])
+    if t == 'ref': return [14]
     raise ValueError(v)
 
 
@@ -1010,6 +1011,87 @@ def check_chain(a, b, c, lits, out):
     return bad
 
 
+# ----------------------------------------------------------------------------------------
+# aliasing: one object shared inside both operands of a comparison -- the laws must not depend on identity
+# ----------------------------------------------------------------------------------------
+REF = ('ref',)
+AL_X = [L(L(I(1))), L(I(1)), M((S("me"), I(1))), L(), T(L(I(1)), I(2)), M((S("me"), M((S("me"), I(1)))))]
+AL_BODIES = [REF, L(REF), L(L(REF)), L(REF, REF), T(REF), M((S("k"), REF)), L(L(L(REF))), L(I(0), REF), M((S("me"), REF))]
+
+
+def expand(body, x):
+    """the aliased description as an ordinary (structural) one"""
+    t = body[0]
+    if t == 'ref': return x
+    if t in ('l', 't'): return (t, tuple(expand(e, x) for e in body[1]))
+    if t == 'it': return ('it', body[1], tuple(expand(e, x) for e in body[2]))
+    if t == 'm': return ('m', tuple((expand(k, x), expand(e, x)) for k, e in body[1]))
+    return body
+
+
+def alias_cases(thorough):
+    out = []
+    for x in AL_X:
+        bodies = AL_BODIES + [expand(b, x) for b in AL_BODIES]      # aliased, and freshly built copies of the same structure
+        for a in bodies:
+            for b in bodies:
+                out.append((x, a, b))
+    return out
+
+
+# ----------------------------------------------------------------------------------------
+# enumeration is repeatable: the result of an operation, kept and enumerated several times, lists the same items
+# ----------------------------------------------------------------------------------------
+ENUM_OPS = {0: "reverse", 1: "items", 2: "dictsort", 3: "slice(2)", 4: "batch(2)", 5: "map(attribute='a', default=none)", 6: "select", 7: "reject",
+            8: "sort", 9: "unique", 10: "list", 11: "reverse|reverse", 12: "(the value itself)", 100: "chain(x)", 101: "zip(x)", 102: "range(3)"}
+OBSERVATIONS = ["r|list", "r|list", "r|length", "r|list", "r|reverse|list", "r|list"]
+
+
+def enum_cases(thorough):
+    xs3 = [I(1), S("b"), I(0)]
+    conts = []
+    for n in (0, 1, 3):
+        its = xs3[:n]
+        conts += containers(None, its)
+    conts += [M(), M((S("a"), I(1))), M((S("c"), I(3)), (S("a"), I(1)), (S("b"), I(2))), M((I(2), S("x")), (I(1), S("y"))),
+              S("abc"), S(""), S("ab", 1), N, U, L(M((S("a"), I(1))), M((S("b"), I(2))), M((S("a"), I(0)))), L(L(I(1)), L(), I(0)), I(1), Y([97]), P("x")]
+    return [(op, c) for c in conts for op in ENUM_OPS]
+
+
+def parse_obs(out):
+    """[list1, list2, length, list3, reversed list, list4] as parsed values / ('err', code); None when the operation itself failed"""
+    if not out or out[0] != 0: return None
+    i, res = 1, []
+    while i < len(out):
+        if out[i] == 0:
+            v, i = parse(out, i + 1); res.append(v)
+        else:
+            res.append(('err', out[i + 1])); i += 2
+    return res
+
+
+def check_enum(op, c, out):
+    if not out or out == [2] or out[0] == "CRASH" or any(not isinstance(x, int) for x in out):
+        return [("no-panic", "the operation or an enumeration of its result crashed (%r)" % (out[:3],), None)]
+    obs = parse_obs(out)
+    if obs is None or len(obs) != len(OBSERVATIONS):
+        return []
+    l1, l2, ln, l3, rv, l4 = obs
+    who = "r = x|%s" % ENUM_OPS[op]
+    bad = []
+    for name, l in (("a second `r|list`", l2), ("`r|list` after `r|length`", l3), ("`r|list` after `r|reverse|list`", l4)):
+        if l != l1:
+            bad.append(("enumeration-repeatable", "%s: %s gives %s, the first `r|list` gave %s" % (who, name, show(l) if l[0] != 'err' else l, show(l1) if l1[0] != 'err' else l1), None))
+            return bad
+    if l1[0] == 'l':
+        if ln[0] == 'i' and ln[2] != len(l1[1]):
+            bad.append(("enumeration-length", "%s: `r|length` is %d but `r|list` has %d items" % (who, ln[2], len(l1[1])), None))
+        if rv[0] == 'l' and list(rv[1]) != list(reversed(l1[1])):
+            kn = {"reverse-reviter"} if (list(rv[1]) == list(l1[1]) and ((c[0] == 'it' and c[1] == 2 and op == 12))) else None
+            bad.append(("enumeration-reverse", "%s: `r|reverse|list` gives %s, `r|list` gives %s" % (who, show(rv), show(l1)), kn))
+    return bad
+
+
 def filter_key_pool():
     """every value the filter laws compare: items, attribute values, case-folded keys, defaults"""
     vals = []
@@ -1225,20 +1307,52 @@ def main():
                     register(law, msg, {"chain": list(t), "shown": {"a": show(t[0]), "b": show(t[1]), "c": show(t[2]), "literals": built[ci][1]}, "law": law, "observed": msg,
                                         "profile": prof, "target": tgt.name, "templates": CHAINS, "implementation (variables, then literals)": rch["impl"][rel][ci],
                                         "how": "./check C07 --replay <this file>"}, kcls)
+        # ---------------- mode E: aliased operands; mode F: repeatable enumeration ----------------
+        if chk.replay:
+            als = [tuple(tuple_deep(x) for x in rp["alias"])] if (rp and "alias" in rp) else []
+            ens = [(rp["enum"][0], tuple_deep(rp["enum"][1]))] if (rp and "enum" in rp) else []
+        else:
+            als = alias_cases(chk.thorough)
+            ens = enum_cases(chk.thorough)
+        alcases = [[4] + flat(x) + flat(a) + flat(b) for (x, a, b) in als]
+        frcases = [pair_case(expand(a, x), expand(b, x)) for (x, a, b) in als]
+        ral = corr_t(chk, tgt, alcases, 6, fprof)
+        ens_m = [(op, c) for (op, c) in ens if op < 100]
+        ens_i = [(op, c) for (op, c) in ens if op >= 100]
+        encases = [[5, op] + flat(c) for (op, c) in ens_m]
+        ren = corr_t(chk, tgt, encases, 6, fprof)
+        for rel in fprof:
+            prof = "release" if rel else "debug"
+            fresh = run_lines([tgt.bins[rel]], frcases) if frcases else []
+            for ci, (x, a, b) in enumerate(als):
+                got = ral["impl"][rel][ci]
+                if got != fresh[ci]:
+                    register("identity-independent", "with one object shared inside both operands the answers [eq, cmp, hash_eq, a<b, a==b, a in [b], {b:1}[a]] are %s, for freshly built equal values they are %s" % (got, fresh[ci]),
+                             {"alias": [x, a, b], "shown": {"shared x": show(x), "a": show(expand(a, x)).replace(show(x), "x") if a != REF else "x", "b": show(expand(b, x)).replace(show(x), "x") if b != REF else "x",
+                                                            "a (structure)": show(expand(a, x)), "b (structure)": show(expand(b, x))},
+                              "law": "identity-independent", "profile": prof, "target": tgt.name, "aliased": got, "fresh": fresh[ci], "how": "./check C07 --replay <this file>"}, None)
+            extra = run_lines([tgt.bins[rel]], [[5, op] + flat(c) for (op, c) in ens_i]) if ens_i else []
+            for (op, c), out in list(zip(ens_m, ren["impl"][rel])) + list(zip(ens_i, extra)):
+                for law, msg, kcls in check_enum(op, c, out):
+                    register(law, msg, {"enum": [op, c], "shown": {"x": show(c), "operation": ENUM_OPS[op], "observations": OBSERVATIONS}, "law": law, "observed": msg,
+                                        "profile": prof, "target": tgt.name, "implementation": out[:80], "how": "./check C07 --replay <this file>"}, kcls)
+        if tgt.order == "sorted":
+            hist["aliasing"] += len(alcases); hist["enumeration"] += len(ens)
+        evaluations += (2 * len(alcases) + len(ens)) * len(fprof)
         if tgt.order == "sorted":
             hist["chains"] += len(chcases)
         evaluations += len(chcases) * len(fprof)
         if tgt.order == "sorted":
             hist["containment"] += len(ccases)
         evaluations += (len(ccases) + len(epc)) * len(fprof)
-        for what, rr, cs in (("pair", r, pcases), ("filter", rf, fcases), ("containment", rc, ccases), ("chain", rch, chcases)):
+        for what, rr, cs in (("pair", r, pcases), ("filter", rf, fcases), ("containment", rc, ccases), ("chain", rch, chcases), ("aliasing", ral, alcases), ("enumeration", ren, encases)):
             mm = [(i, rel) for i in range(len(cs)) for rel in sorted(rr["impl"]) if rr["impl"][rel][i] != rr["model"][i]]
             disagreements += len(mm)
             if mm:
                 i, rel = mm[0]
                 failures.append(("model and implementation disagree (%s, %s target)" % (what, tgt.name),
                                  {"theorem_or_correspondence": "correspondence C07.Runner.%s vs harness c07" % tgt.coq_run, "target": tgt.name, "case": cs[i],
-                                  "describe": fdescribe(cs[i]) if what == "filter" else ([show(pool[k]) for k in keep[i]] if what == "pair" else [show(x) for x in (ccs[i] if what == "containment" else chs[i])]),
+                                  "describe": fdescribe(cs[i]) if what == "filter" else ([show(pool[k]) for k in keep[i]] if what == "pair" else [show(x) if isinstance(x, tuple) else x for x in (ccs[i] if what == "containment" else chs[i] if what == "chain" else [expand(y, als[i][0]) for y in als[i][1:]] if what == "aliasing" else ens_m[i])]),
                                   "implementation": rr["impl"][rel][i][:80], "model": rr["model"][i][:80], "profile": "release" if rel else "debug"}))
             kernel_cases += rr.get("kernel_checked", 0)
             if not rr.get("kernel_ok", False):
@@ -1262,12 +1376,14 @@ def main():
                        "filters (17): exhaustive lists of length <= %d over 6-value pools x all keyword options (first %d cases) + maps over every ordered choice of <= 3 keys + container shapes + seeded long lists (up to 150 items); "
                        "containment: `v in c` / `not in` / the `in` test / `v in (c|list)` / `c[v] is defined` for every needle of a 25-value pool (strings, UTF-8 and other bytes spelling the same text, numbers, bool, none, containers) in lists / tuples / lazy iterables / maps (1, 2 and 14 entries, string and bytes keys) / strings / bytes / scalars, against == on the elements resp. keys; "
                        "chains: 22 comparison / containment chains (`a not in b != c`, `a < c in b`, `a == c == a` ...) over 10 x 11 x 10 operand triples, with the operands as context variables and - where all three have a literal - spelled as literals (constant-folded at compile time): literal form = variable form = model; "
+                       "aliasing: all pairs of 18 shapes around one shared object x (x, [x], [[x]], [x, x], (x,), {'k': x} ... as clones of the same object and as fresh copies) for 6 x: answers must equal those for independently built values (= the structural model); "
+                       "enumeration: 16 iterable-producing operations x 27 containers, the one result value listed / measured / reversed / listed again: every listing gives the same items; "
                        "non-trivial = ordered pair of two different pool values + distinct filter case with a non-empty result (counted once, not per target)"
                        % (n * n, n, ntriples // max(1, 2 * len(targets)), 5 if chk.thorough else 4, exn))
     chk.cov["exhaustive"] = False
     chk.cov["exhaustive_subbox_cases"] = exn
     chk.cov["samples"] = samples
-    chk.cov["distribution"] = dict(collections.Counter({k: v for k, v in hist.items() if k.startswith("filter=") or k in ("containment", "chains")}) + collections.Counter(dict(kinds.most_common(25))))
+    chk.cov["distribution"] = dict(collections.Counter({k: v for k, v in hist.items() if k.startswith("filter=") or k in ("containment", "chains", "aliasing", "enumeration")}) + collections.Counter(dict(kinds.most_common(25))))
     chk.cov["law_outcomes"] = dict(counts)
     chk.cov["impl_vs_model_disagreements"] = disagreements
     chk.cov["indexmap_pairs_left_out_as_hash_dependent"] = skipped_hash_dependent
